@@ -17,7 +17,8 @@ META = "tantivy::core::META_FILEPATH"
 
 def rule_ack_after_durable(rep, prog, rule, max_depth=8):
     aw = family(prog, D + "atomic_write")
-    sync = family(prog, D + "sync_directory")
+    from .props.c01 import sync_events
+    sync = sync_events(prog)
     # base publishers
     base = {}
     for (b, bi, t) in prog.who_calls(aw):
